@@ -87,7 +87,18 @@ RoundOut run_round(vrf::Round& R, const Program& P, bool exclusive_contract, boo
     } else {
         for (size_t t = 0; t < P.scripts.size(); t++) {
             R.spawn([&, t] {
-                for (auto& p : P.scripts[t]) do_op<FAM, W, M>(*w, p, static_cast<int>(t), rs, &futs[t]);
+                for (auto& p : P.scripts[t]) {
+                    auto run = [&] { do_op<FAM, W, M>(*w, p, static_cast<int>(t), rs, &futs[t]); };
+                    if (p.during_unwind) {
+                        // locks taken and released by clean-up code during stack unwinding behave like any others
+                        try {
+                            RunInDtor<decltype(run)&> guard{run};
+                            throw HarnessUnwind{};
+                        }
+                        catch (const HarnessUnwind&) {
+                        }
+                    } else run();
+                }
             });
         }
     }
